@@ -348,7 +348,9 @@ func c17(c *Ctx) {
 			okFin := false
 			for _, cl := range callsIn(fi) {
 				if strings.HasSuffix(calleeName(cl), ".cb") {
-					okFin = knownNonEmpty(factsAt(cl.Block()), func(v ssa.Value) bool { return strings.HasSuffix(pathOf(v), ".Metrics") || strings.HasSuffix(pathOf(v), ".Series") })
+					okFin = knownNonEmpty(factsAt(cl.Block()), func(v ssa.Value) bool {
+						return strings.HasSuffix(pathOf(v), ".Metrics") || strings.HasSuffix(pathOf(v), ".Series")
+					})
 				}
 			}
 			r.Check(rel+":finish:hands-over-remainder", okFin, fi.Pos(), "finish emits the open batch when it is not empty")
@@ -652,7 +654,35 @@ func c17(c *Ctx) {
 			b := asBinOp(test.Cond, token.GTR, token.GEQ)
 			okSum := b != nil && asBinOp(b.X, token.ADD) != nil && strings.HasSuffix(pathOf(b.Y), ".packetSize")
 			r.Check("statsdaemon:size-test-shape", okSum, test.Pos(), "buf.Len()+line.Len() > client.packetSize")
-			// the write to buf: fmt.Fprint(buf, line) dominated by the test block
+			// the packet buffer is what the overflow handler is given on the true edge; it is identified by its
+			// location (a local, a captured variable or a field of the writer state), not by its name
+			tb := test.Block().Succs[0]
+			inTrue := func(in ssa.Instruction) bool { bb := in.Block(); return bb == tb || tb.Dominates(bb) }
+			var hcall *ssa.Call
+			for _, cl := range callsIn(g) {
+				cc, isCall := cl.(*ssa.Call)
+				if !isCall || !inTrue(cc) || cc.Call.IsInvoke() || staticCallee(cc) != nil || len(cc.Call.Args) != 1 {
+					continue
+				}
+				if tup, isT := cc.Type().(*types.Tuple); isT && tup.Len() == 2 && tup.At(0).Type().String() == "*bytes.Buffer" {
+					hcall = cc
+				}
+			}
+			packet := ""
+			if hcall != nil {
+				packet = pathOf(hcall.Call.Args[0])
+			}
+			okLen := false
+			if b != nil {
+				if sum := asBinOp(b.X, token.ADD); sum != nil {
+					for _, o := range []ssa.Value{sum.X, sum.Y} {
+						if lc, isC := o.(*ssa.Call); isC && calleeName(lc) == "(*bytes.Buffer).Len" && pathOf(lc.Call.Args[0]) == packet {
+							okLen = true
+						}
+					}
+				}
+			}
+			r.Check("statsdaemon:size-test-on-packet", hcall != nil && okLen, test.Pos(), "the size test measures the buffer that is handed to the overflow handler ("+packet+")")
 			// every write into the packet buffer (fmt.Fprint(buf, ..), buf.Write*, line.WriteTo(buf)) comes after the test
 			okW, nW := true, 0
 			for _, cl := range callsIn(g) {
@@ -670,7 +700,7 @@ func c17(c *Ctx) {
 				default:
 					continue
 				}
-				if !strings.Contains(pathOf(dst), "buf") {
+				if pathOf(stripConvVal(dst)) != packet {
 					continue
 				}
 				nW++
@@ -680,16 +710,17 @@ func c17(c *Ctx) {
 			}
 			okW = okW && nW >= 1
 			r.Check("statsdaemon:write-after-size-test", okW, test.Pos(), "the line is written into the packet buffer only after the size test")
-			// true edge: handler(buf) and buf replaced
+			// true edge: handler(buf) and buf replaced by what the handler returned
 			okSwap := false
-			tb := test.Block().Succs[0]
 			for _, bb := range g.Blocks {
 				if !(bb == tb || tb.Dominates(bb)) {
 					continue
 				}
 				for _, in := range bb.Instrs {
-					if st, ok := in.(*ssa.Store); ok && valueName(st.Addr) == "buf" {
-						okSwap = true
+					if st, ok := in.(*ssa.Store); ok && hcall != nil && pathOf(st.Addr) == packet {
+						if ex, isEx := st.Val.(*ssa.Extract); isEx && ex.Tuple == ssa.Value(hcall) && ex.Index == 0 {
+							okSwap = true
+						}
 					}
 				}
 			}
